@@ -957,6 +957,11 @@ pub fn gen_ops(rng: &mut SimRng, thorough: bool) -> Vec<Op> {
 		tail.push(Op::Submit { kind: Submit::Valid, stem: false, r: rng.next_u64() });
 		tail.push(Op::Submit { kind: Submit::DependentTwoParents, stem: false, r: rng.next_u64() });
 	}
+	// headers of one fork ahead of the blocks of another: the pool judges maturity against the blocks
+	tail.push(Op::HeaderAhead { r: rng.next_u64() });
+	tail.push(Op::Reorg { depth: rng.range(2, 3), r: rng.next_u64() });
+	tail.push(Op::Submit { kind: Submit::JustMatureCoinbase, stem: false, r: rng.next_u64() });
+	tail.push(Op::Submit { kind: Submit::ImmatureCoinbase, stem: false, r: rng.next_u64() });
 	tail.extend(vec![
 		// a stem transaction that depends on a pooled one, so that the eviction below may take its parent
 		Op::Submit { kind: Submit::Valid, stem: false, r: rng.next_u64() },
@@ -999,6 +1004,18 @@ pub fn gen_ops_c13(rng: &mut SimRng, thorough: bool) -> Vec<Op> {
 			Op::Reorg { depth: rng.range(1, 3), r: rng.next_u64() }
 		};
 		ops.push(op);
+	}
+	// headers of one fork ahead of the blocks of another, then threshold spends
+	let at = rng.usize_below(ops.len() + 1);
+	let seq = vec![
+		Op::HeaderAhead { r: rng.next_u64() },
+		Op::Reorg { depth: rng.range(2, 3), r: rng.next_u64() },
+		Op::Submit { kind: Submit::JustMatureCoinbase, stem: false, r: rng.next_u64() },
+		Op::Submit { kind: Submit::ImmatureCoinbase, stem: false, r: rng.next_u64() },
+		Op::Submit { kind: Submit::MixedMaturityCoinbases, stem: false, r: rng.next_u64() },
+	];
+	for (i, op) in seq.into_iter().enumerate() {
+		ops.insert(at + i, op);
 	}
 	ops
 }
